@@ -101,6 +101,10 @@ def get_function(qualname):
     if len(parts) == 2: return mod, None, mod.functions[parts[1]]
     cls = mod.classes[parts[1]]
     fn = cls.methods.get(parts[2]) or cls.properties.get(parts[2])
+    if fn is None:
+        # not defined in the class itself any more: what runs is the inherited method (e.g. an override that was removed)
+        k, m = lookup_method(cls, parts[2])
+        if m is not None: return k.module, cls, m
     return mod, cls, fn
 
 def source_hash(mod, fn):
